@@ -23,6 +23,7 @@ import (
 func init() { chk.Register(&chk.Check{ID: "C17", Run: run, Replay: replay}) }
 
 func run(r *chk.Run) {
+	e2.RunTwoStreamsFirst(r)
 	RunCodec(r)
 	// end-to-end half: malformed packets injected into a history served to the real Stream
 	e2.RunInjection(r)
@@ -45,6 +46,8 @@ func replay(kind string, input json.RawMessage) (bool, string) {
 		return e2.ReplayHistory(kind, input)
 	case "scale":
 		return e2.ReplayScale(input)
+	case "nest":
+		return e2.ReplayNest(input)
 	}
 	return false, "unknown replay kind " + kind
 }
